@@ -346,6 +346,22 @@ def run(tier, seed, replay):
                     rep.count("floquet")
                     if dd > 2e-5:
                         v("routes:floquet", f"Floquet-basis solution differs from sesolve by {dd:.2e} (1 - overlap)", {"w": w, "H": str(H.full().tolist()), "H1": str(H1.full().tolist()), "psi0": str(psi0.full().ravel().tolist())})
+                    # time lists that do not start at 0 (inside the first period, at a period, later): the Floquet-basis
+                    # solution and the Floquet-Markov solver without bath coupling against the Schrodinger solution
+                    for t_start in (0.37 * Tper, Tper, 1.9 * Tper):
+                        tls = t_start + np.linspace(0, 1.3 * Tper, 4)
+                        ks = qutip.sesolve(Ht, psi0, tls, options=dict(TIGHT, store_states=True)).states
+                        fls = qutip.fsesolve(Ht, psi0, tls, T=Tper, options={"atol": 1e-10, "rtol": 1e-8, "nsteps": 100000}).states
+                        fm = qutip.fmmesolve(Ht, psi0, tls, c_ops=[qutip.Qobj(np.eye(d))], spectra_cb=[lambda w_: 0.0 * w_], T=Tper,
+                                             options={"atol": 1e-10, "rtol": 1e-8, "nsteps": 100000, "store_states": True}).states
+                        rep.count("floquet-late-start")
+                        rep.evaluations += 2
+                        d1 = max(1 - abs(np.vdot(a.full().ravel(), b.full().ravel())) for a, b in zip(fls, ks))
+                        d2 = max(np.abs((a if a.isoper else a.proj()).full() - b.proj().full()).max() for a, b in zip(fm, ks))
+                        if d1 > 2e-5:
+                            v("routes:floquet-late-start", f"fsesolve on a time list starting at {t_start / Tper:.2f} T differs from sesolve by {d1:.2e} (1 - overlap)", {"w": w, "t_start": float(t_start)})
+                        if d2 > 2e-4:
+                            v("routes:floquet-markov-late-start", f"fmmesolve without bath coupling on a time list starting at {t_start / Tper:.2f} T differs from sesolve by {d2:.2e}", {"w": w, "t_start": float(t_start)})
                 # Bloch-Redfield without bath coupling is the master equation
                 br = qutip.brmesolve(H, rho0, tl, a_ops=[], c_ops=cs, options=dict(TIGHT, store_states=True))
                 me = qutip.mesolve(H, rho0, tl, c_ops=cs, options=dict(TIGHT, store_states=True))
@@ -359,6 +375,37 @@ def run(tier, seed, replay):
                 v("raises:td-routes", f"{type(e).__name__}: {e}"[:240])
         # solver objects reused: eigenstate first, then a generic state (Krylov and the others)
         ev, evec = H.eigenstates()
+        # tolerances assigned to a solver object that already exists (a dictionary assigned to .options, single items set):
+        # the next run meets the tolerance now requested
+        for method in ("adams", "bdf", "lsoda", "dop853", "vern7", "vern9"):
+            try:
+                with warnings.catch_warnings():
+                    warnings.simplefilter("ignore")
+                    with core.time_limit(120):
+                        s_ = qutip.SESolver(H, options={"method": method, "progress_bar": "", "store_states": True})
+                        s_.run(psi0, [0, 0.3])
+                        s_.options = {"atol": 1e-12, "rtol": 1e-12, "nsteps": 200000}
+                        got_a = s_.run(psi0, tl).states
+                        s2_ = qutip.SESolver(H, options={"method": method, "progress_bar": "", "store_states": True})
+                        s2_.options["atol"] = 1e-12
+                        s2_.options["rtol"] = 1e-12
+                        s2_.options["nsteps"] = 200000
+                        got_b = s2_.run(psi0, tl).states
+            except core.CaseTimeout:
+                raise
+            except Exception as e:
+                if type(e).__name__ == "IntegratorException":
+                    continue
+                v(f"options-live:{method}:raises", f"{type(e).__name__}: {e}"[:200], {"method": method})
+                continue
+            exact = [sla.expm(-1j * H.full() * t) @ psi0.full() for t in tl]
+            for nm_, got_ in (("dictionary assigned to .options", got_a), ("items set on .options", got_b)):
+                rep.evaluations += 1
+                rep.count("options-on-live-solver")
+                err = max(np.abs(a.full() - b).max() for a, b in zip(got_, exact))
+                if err > 2e-9:
+                    v(f"exact:options-live:{method}", f"{method}: after tolerances 1e-12 were given to an existing solver ({nm_}) the states miss the matrix-exponential solution by {err:.1e}", {"method": method, "how": nm_, "H": str(H.full().tolist())})
+                    break
         for method in ("krylov", "adams", "vern7", "diag"):
             o = {"method": method, "store_states": True, "progress_bar": ""}
             if method == "krylov":
